@@ -445,6 +445,18 @@ func (s *Server) handleNewConnection(ctx context.Context, rwc io.ReadWriteCloser
 
 	scanner.Scan()
 
+	// The address may have been banned while this peer was holding its login back: look again before the login is
+	// processed.
+	if isBanned, banUntil := s.BanList.IsBanned(ipAddr); isBanned && (banUntil == nil || time.Now().Before(*banUntil)) {
+		if banUntil == nil {
+			sendBanMessage(rwc, "You are permanently banned on this server")
+		} else {
+			sendBanMessage(rwc, "You are temporarily banned on this server")
+		}
+
+		return nil
+	}
+
 	// Make a new []byte slice and copy the scanner bytes to it.  This is critical to avoid a data race as the
 	// scanner re-uses the buffer for subsequent scans.
 	buf := make([]byte, len(scanner.Bytes()))
